@@ -196,6 +196,13 @@ func c14RunLRU(c c14Case, st *fw.Stats) []fw.Viol {
 		maxCap = 0
 	}
 	for len(frontier) > 0 {
+		if len(viols) >= 4 {
+			return viols
+		}
+		if len(seen) > 500000 || st.Expired() {
+			st.Cap("LRU state graph cut: more than 500000 states or budget used up")
+			return viols
+		}
 		n := frontier[0]
 		frontier = frontier[1:]
 		for _, op := range ops {
